@@ -92,6 +92,19 @@ Theorem C01_app_judgement_transfer : forall sc t, JudgeC01P.profile_C01b sc = tr
 Proof. exact JudgeC01P.C01_app_judgement_transfer. Qed.
 
 
+(* ---- source tie (DESIGN 11.8): definitions REGENERATED from the Rust source text by bin/rs2v.py on every run
+   (coq/Generated/*.v) coincide with the hand-written model ---- *)
+From BEI Require Generated.ValueSrc Generated.EventsSrc Generated.TrackerSrc Proofs.SrcTieP.
+Theorem C01_source_events_table : forall p c, EventsSrc.events_new_src p c = State.events_new p c.
+Proof. exact SrcTieP.events_new_tie. Qed.
+
+Theorem C01_source_flag_order : EventsSrc.ActionEvents_flags_src = List.map State.ev_bit State.all_kinds.
+Proof. exact (proj1 SrcTieP.ActionEvents_flags_tie). Qed.
+
+Theorem C01_source_state_order : forall s, EventsSrc.ActionState_index_src s = State.state_rank s.
+Proof. exact SrcTieP.ActionState_order_tie. Qed.
+
+
 Print Assumptions C01_table.
 Print Assumptions C01_started_first.
 Print Assumptions C01_payload.
@@ -124,3 +137,6 @@ Print Assumptions C01_unit_judgement_sound_exact.
 Print Assumptions C01_unit_judgement_transfer.
 Print Assumptions C01_app_judgement_sound.
 Print Assumptions C01_app_judgement_transfer.
+Print Assumptions C01_source_events_table.
+Print Assumptions C01_source_flag_order.
+Print Assumptions C01_source_state_order.
